@@ -114,7 +114,7 @@ def check(facts):
             continue
         a = aggs[0]["rv"]
         vals = dict(zip(a.get("fields") or [], a.get("ops") or []))
-        hay = [l for l in range(1, b.argc + 1) if b.local_name(l) == "haystack"]
+        hay = [l for l in range(1, b.argc + 1) if b.local_ty(l).startswith("&") and b.local_ty(l).endswith("str")]
         probs = []
         for fld, want in (("current_pos", 0), ("done", 0), ("reverse_done", 0)):
             op = vals.get(fld)
